@@ -25,7 +25,7 @@
 #define LIT_FN stringlit
 #define LIT_Q '"'
 #define LIT_KIND TSTRINGLIT
-#define LIT_SELECT (!g_lit.has_bsnul && !g_lit.has_ucn)
+#define LIT_SELECT (!g_lit.has_ucn)
 /* u8"\"\\"  with a splice in front of the closing quote */
 #define LIT_CANARY (g_L[1] == '\\' && g_L[2] == '"' && g_L[3] == '\\' && g_L[4] == '\\' && g_L[5] == '"' && g_k[5] == 1 && g_P == 2)
 #include "lit_common.h"
